@@ -6,6 +6,7 @@ import Driver.Rs
 import Driver.Mqtt
 import Driver.CalCfg
 import Driver.KeepAlive
+import Driver.Countdown
 
 def main (args : List String) : IO UInt32 := do
   match args with
@@ -17,4 +18,5 @@ def main (args : List String) : IO UInt32 := do
   | ["mqtt"] => Driver.MqttDrv.main; return 0
   | ["calcfg"] => Driver.CalCfgDrv.main; return 0
   | ["keepalive"] => Driver.KeepAliveDrv.main; return 0
+  | ["countdown"] => Driver.CountdownDrv.main; return 0
   | _ => IO.eprintln "usage: svdrv <subsystem>"; return 2
